@@ -49,6 +49,30 @@ CLAIMED = {
         "the reciprocal-multiply form are value-tested only. Real-type runs use -ffp-contract=off; integer references wrap around.",
    technique="Lean 4 proof (structural induction + loop tiling) of an executable evaluator model; symbolic and bit-exact correspondence",
    design="§4 C02"),
+ "C09": dict(
+   text="Machine-checked proof (Lean 4): the staged assignment performed by the overload table of binary_arithmetic_assignment.h / binary_matmul_op.h "
+        "(two-step splitting dst op= l +- r, alias check with its temporary, whole-expression temporary for *=, gemm-style accumulation of a lazy "
+        "product) leaves op(dst, eager meaning of the tree) in dst and changes nothing else, for every tree over element-wise + - * and lazy products "
+        "with the destination allowed anywhere, over any commutative ring (Fastor.C09.staged_eq_denote, staged_frame, assign_via_temporary). Tied to "
+        "/repo by generated trees with every alias pattern over the symbolic scalar (values of all tensors, number of passes over the destination) "
+        "and by lazy-vs-eager runs of inv/det/trans/cof/adj/solve/product chains on float and double for all five operators.",
+   note="The model describes the code after two fix: commits (the alias branch used a copy of dst instead of the aliasing operand; does_alias did not "
+        "compile with a scalar operand). inv/det/trans/cof/adj/solve/norm/trace nodes and the greedy re-association of product chains are value-tested; "
+        "chain associativity over a ring is matrix-product associativity (not restated).",
+   technique="Lean 4 proof by structural induction over an executable model of the assignment overload table; symbolic correspondence",
+   design="§4 C09"),
+ "C15": dict(
+   text="Machine-checked proof (Lean 4): for 3 and 4 operands and EVERY variant the flop cost model can select (the variant depends on the extents, "
+        "which are universally quantified), the composition of pairwise contractions computes in each cell the full Einstein sum of all operands "
+        "(Fastor.C15.eval3_value / eval4_value, joined with the C03 loop-nest theorem), the result indices are a permutation of the declared ones with "
+        "their extents (triplet_res_perm, quartet_res_perm), and the index ORDER is the declared one exactly when the variant is not 1 or operand 0 or "
+        "1 has no free index (index_order_iff) — with a kernel-checked counterexample (index_order_counterexample, order_depends_on_extents): the "
+        "order statement of the property is false of the code (known finding F9). Tied to /repo by real 3-/4-operand einsum over the symbolic scalar: "
+        "selected variant, declared extents, values in memory order; op-min on and off.",
+   note="F9 (wrong index order for variant 1) is a recorded known finding, not repaired. The single-loop evaluation used with FASTOR_DONT_PERFORM_OP_MIN "
+        "is modelled (directVals) and tied, its order theorem is direct_order; its value theorem is not stated. 5..8 operands are not modelled.",
+   technique="Lean 4 proof of cost-model/evaluation-order model (associativity of finite Einstein sums) + symbolic correspondence",
+   design="§4 C15"),
 }
 
 NOT_YET = {}
